@@ -33,7 +33,7 @@ type goTrace struct {
 // programs of this check start no threads, so that is one VM).
 func EvalSrcTraced(src string, timeout time.Duration) (EvalOut, goTrace) {
 	var t goTrace
-	vm.VerifTrace = func(_ *vm.VirtualMachine, id string, ip int, _ op.Code, sp int) {
+	vm.VerifTrace = func(_ *vm.VirtualMachine, id string, ip int, _ op.Code, sp int, _ int) {
 		if t.n < c01TraceCap {
 			t.shown = append(t.shown, fmt.Sprintf("%s:%d:%d", id, ip, sp+1))
 		}
